@@ -61,7 +61,7 @@ pub fn e2(prop: &str, ty: &str, hk: u8, alpha: &str, flags: &[&str], universe: u
 
 pub fn run_any_shard(spec: &ShardSpec, cur: Option<&str>, trace: Option<(u64, String)>) -> ShardResult {
     match spec.engine.as_str() {
-        "e1" | "e2" => shard::run_shard(spec, cur, trace),
+        "e1" | "e2" | "e7" => shard::run_shard(spec, cur, trace),
         e => panic!("unknown engine {}", e),
     }
 }
@@ -158,6 +158,268 @@ pub fn plan(prop: &str, tier: &str) -> Option<Plan> {
                 s.push(e2(prop, "zst", H_GOOD, "look+mut+ch1+bulk2+shape2", &[], 1, "chk", 600.0));
                 s.push(e2(prop, "u32", H_GOOD, "look+mut+ch1+bulk2+shape2", &[], 3, "chk", 900.0));
                 bounds = json!({"E1": "d<=1 at N=130 (4 hashers x initial capacities {0,1,4,29,200} x {u32,Tk}); d<=2 at N=64; d<=3 at N=31", "E2": "fixpoint over u=6 (HGood,HLow) / u=5 (HConst,HTag) keys; full alphabet at u=3; ZST"});
+            }
+        }
+        "C02" => {
+            let fl = ["c02", "c03"];
+            let a1 = "look+mut+ch1+shape+bulk";
+            let a2 = "look1+mut+ch0+shape";
+            let sweep = |n: usize, stride: u32, hk: u8, secs: f64| {
+                let mut x = e1(prop, "u32", hk, 0, "", &["c02", "c03", "cheap"], n, 0, 0, "chk", secs);
+                x.engine = "e7".into();
+                x.extra.insert("stride".into(), stride.to_string());
+                x
+            };
+            if q {
+                for &hk in &HS4 {
+                    s.push(e1(prop, "u32", hk, 0, a1, &fl, 64, 1, 1, "chk", 40.0));
+                }
+                s.push(e1(prop, "u32", H_GOOD, 0, a1, &fl, 130, 1, 1, "chk", 40.0));
+                s.push(e1(prop, "u32", H_GOOD, 0, a2, &fl, 31, 2, 1, "chk", 40.0));
+                s.push(e1(prop, "u32", H_LOW, 0, a2, &fl, 31, 2, 1, "chk", 40.0));
+                s.push(e2(prop, "u32", H_GOOD, "look1+mut+ch0+shape2", &fl, 4, "chk", 40.0));
+                s.push(e2(prop, "u32", H_LOW, "look1+mut+ch0+shape2", &fl, 4, "chk", 40.0));
+                for st in [0, 2, 3, 8] {
+                    s.push(sweep(200_000, st, H_GOOD, 40.0));
+                }
+                bounds = json!({"E1": "d<=1 at N=64 (4 hashers) and N=130; d<=2 at N=31", "E2": "fixpoint u=4", "E7": "growth path to 2*10^5 elements (14 doublings) with tombstone strides {none,2,3,8}, every call monitored"});
+            } else {
+                for &hk in &HS4 {
+                    for &c in &[0usize, 29] {
+                        s.push(e1(prop, "u32", hk, c, a1, &fl, 130, 1, 1, "chk", 600.0));
+                    }
+                    s.push(e1(prop, "u32", hk, 0, a2, &fl, 64, 2, 1, "chk", 900.0));
+                }
+                s.push(e1(prop, "u32", H_GOOD, 0, "mut+ch0+shape", &fl, 31, 3, 1, "chk", 900.0));
+                for &hk in &[H_GOOD, H_LOW] {
+                    s.push(e2(prop, "u32", hk, "look1+mut+ch0+shape2", &fl, 6, "chk", 900.0));
+                }
+                s.push(e2(prop, "u32", H_TAG, "look1+mut+ch0+shape2", &fl, 5, "chk", 900.0));
+                for st in [0, 2, 3, 8] {
+                    s.push(sweep(3_000_000, st, H_GOOD, 600.0));
+                    s.push(sweep(300_000, st, H_TAG, 600.0));
+                }
+                bounds = json!({"E1": "d<=1 at N=130 (4 hashers x cap0 {0,29}); d<=2 at N=64; d<=3 at N=31", "E2": "fixpoint u=6 (HGood,HLow), u=5 (HTag)", "E7": "growth path to 3*10^6 elements (18 doublings) with tombstone strides {none,2,3,8}"});
+            }
+        }
+        "C03" => {
+            let fl = ["c03", "cursor"];
+            let a = "look1+mut+ch0+shape";
+            let sweep = |n: usize, stride: u32, secs: f64| {
+                let mut x = e1(prop, "u32", H_GOOD, 0, "", &["c03", "cheap"], n, 0, 0, "chk", secs);
+                x.engine = "e7".into();
+                x.extra.insert("stride".into(), stride.to_string());
+                x
+            };
+            if q {
+                for &hk in &HS4 {
+                    s.push(e1(prop, "u32", hk, 0, a, &fl, 64, 1, 1, "chk", 40.0));
+                    s.push(e1(prop, "u32", hk, 0, a, &fl, 31, 2, 1, "chk", 40.0));
+                }
+                s.push(e1(prop, "u32", H_GOOD, 0, a, &fl, 130, 1, 1, "chk", 40.0));
+                s.push(e1(prop, "tk", H_GOOD, 0, a, &fl, 31, 1, 1, "chk", 40.0));
+                s.push(e2(prop, "u32", H_GOOD, "look1+mut+ch0+shape2", &fl, 4, "chk", 40.0));
+                s.push(e2(prop, "u32", H_CONST, "look1+mut+ch0+shape2", &fl, 3, "chk", 40.0));
+                s.push(e2(prop, "zst", H_GOOD, "look+mut+ch1+bulk2+shape2", &fl, 1, "chk", 40.0));
+                s.push(sweep(200_000, 0, 40.0));
+                s.push(sweep(200_000, 3, 40.0));
+                bounds = json!({"E1": "d<=1 at N=64/130; d<=2 at N=31 (4 hashers)", "E2": "fixpoint u=4 / u=3 (HConst) / ZST", "E7": "2*10^5 elements"});
+            } else {
+                for &hk in &HS4 {
+                    s.push(e1(prop, "u32", hk, 0, a, &fl, 130, 1, 1, "chk", 600.0));
+                    s.push(e1(prop, "u32", hk, 0, a, &fl, 64, 2, 1, "chk", 900.0));
+                    s.push(e1(prop, "tk", hk, 0, a, &fl, 33, 2, 1, "chk", 900.0));
+                }
+                s.push(e1(prop, "u32", H_GOOD, 0, "mut+ch0+shape", &fl, 31, 3, 1, "chk", 900.0));
+                for &hk in &[H_GOOD, H_LOW] {
+                    s.push(e2(prop, "u32", hk, "look1+mut+ch0+shape2", &fl, 6, "chk", 900.0));
+                }
+                s.push(e2(prop, "u32", H_CONST, "look1+mut+ch0+shape2", &fl, 5, "chk", 900.0));
+                s.push(e2(prop, "zst", H_GOOD, "look+mut+ch1+bulk2+shape2", &fl, 1, "chk", 100.0));
+                for st in [0, 2, 3, 8] {
+                    s.push(sweep(3_000_000, st, 600.0));
+                }
+                bounds = json!({"E1": "d<=1 at N=130; d<=2 at N=64; d<=3 at N=31", "E2": "fixpoint u=6 / u=5 (HConst) / ZST", "E7": "3*10^6 elements, strides {none,2,3,8}"});
+            }
+        }
+        "C04" => {
+            let fl = ["c03", "c10"];
+            let a = "mut1+ch0+shape+fill/mut1+ch0+cap+fill+clone";
+            if q {
+                for &hk in &HS4 {
+                    s.push(e1(prop, "u32", hk, 0, a, &fl, 40, 2, 1, "chk", 40.0));
+                }
+                s.push(e1(prop, "u32", H_GOOD, 0, "cap+fill+clone", &fl, 600, 1, 0, "chk", 40.0));
+                s.push(e1(prop, "u32", H_GOOD, 0, "mut1+ch0+shape+cap+fill", &fl, 130, 1, 1, "chk", 40.0));
+                s.push(e2(prop, "u32", H_GOOD, "mut1+ch0+shape2+fill", &fl, 4, "chk", 40.0));
+                s.push(e2(prop, "u32", H_LOW, "mut1+ch0+shape2+fill", &fl, 4, "chk", 40.0));
+                s.push(e2(prop, "zst", H_GOOD, "mut+ch1+bulk2+shape2+fill", &fl, 1, "chk", 40.0));
+                bounds = json!({"E1": "d<=2 at N=40 (4 hashers); d<=1 at N=130 (every key) and at every n<=600 with the boundary menu", "E2": "fixpoint u=4 with the head-room probe at every state"});
+            } else {
+                for &hk in &HS4 {
+                    s.push(e1(prop, "u32", hk, 0, a, &fl, 64, 2, 1, "chk", 900.0));
+                    s.push(e1(prop, "u32", hk, 0, "mut1+ch0+shape+cap+fill", &fl, 130, 1, 1, "chk", 600.0));
+                }
+                s.push(e1(prop, "u32", H_GOOD, 0, "cap+fill+clone", &fl, 4096, 1, 0, "chk", 900.0));
+                s.push(e1(prop, "tk", H_GOOD, 0, a, &fl, 33, 2, 1, "chk", 900.0));
+                s.push(e1(prop, "u32", H_GOOD, 0, "mut1+ch0+shape+fill/mut1+ch0+cap+fill+clone", &fl, 31, 3, 1, "chk", 900.0));
+                for &hk in &[H_GOOD, H_LOW] {
+                    s.push(e2(prop, "u32", hk, "mut1+ch0+shape2+fill", &fl, 6, "chk", 900.0));
+                }
+                s.push(e2(prop, "u32", H_CONST, "mut1+ch0+shape2+fill", &fl, 5, "chk", 900.0));
+                s.push(e2(prop, "zst", H_GOOD, "mut+ch1+bulk2+shape2+fill", &fl, 1, "chk", 100.0));
+                bounds = json!({"E1": "d<=2 at N=64 (4 hashers); d<=3 at N=31; d<=1 at every n<=4096 with the boundary menu", "E2": "fixpoint u=6 / u=5 with the head-room probe at every state"});
+            }
+        }
+        "C05" => {
+            let fl = ["cursor"];
+            let a = "look1+mut+ch1+bulk+shape/mut1+ch0+pred+iterlite";
+            if q {
+                for &prof in &["asan", "chk"] {
+                    s.push(e1(prop, "tk", H_GOOD, 0, a, &fl, if prof == "asan" { 31 } else { 18 }, if prof == "asan" { 1 } else { 2 }, 1, prof, 45.0));
+                    s.push(e1(prop, "tk", H_LOW, 0, "look1+mut+ch1+bulk+shape", &fl, if prof == "asan" { 40 } else { 64 }, 1, 1, prof, 45.0));
+                    s.push(e2(prop, "tk", H_GOOD, "look1+mut+ch0+shape2+iterlite", &fl, 3, prof, 45.0));
+                    s.push(e2(prop, "tk", H_CONST, "look1+mut+ch0+shape2", &fl, if prof == "asan" { 2 } else { 3 }, prof, 45.0));
+                    s.push(e2(prop, "zst", H_GOOD, "look+mut+ch1+bulk2+shape2+iterlite", &fl, 1, prof, 45.0));
+                    s.push(e1(prop, "u32", H_TAG, 0, "look1+mut+ch1+bulk+shape", &fl, if prof == "asan" { 48 } else { 64 }, 1, 1, prof, 45.0));
+                }
+                bounds = json!({"E1": "Tk: d<=1 at N=64 / d<=2 at N=18 (chk), d<=1 at N=31..48 (asan)", "E2": "fixpoint u=3 (Tk; u=2 for HConst under asan), ZST", "profiles": "asan (optimised, assertions off) and chk (hashbrown debug assertions on)"});
+            } else {
+                for &prof in &["asan", "chk"] {
+                    for &hk in &HS4 {
+                        s.push(e1(prop, "tk", hk, 0, "look1+mut+ch1+bulk+shape", &fl, 130, 1, 1, prof, 900.0));
+                        s.push(e1(prop, "tk", hk, 0, a, &fl, 33, 2, 1, prof, 1200.0));
+                    }
+                    s.push(e2(prop, "tk", H_GOOD, "look1+mut+ch0+shape2+iterlite", &fl, if prof == "asan" { 4 } else { 5 }, prof, 1200.0));
+                    s.push(e2(prop, "tk", H_CONST, "look1+mut+ch0+shape2", &fl, 4, prof, 1200.0));
+                    s.push(e2(prop, "zst", H_GOOD, "look+mut+ch1+bulk2+shape2+iterlite", &fl, 1, prof, 200.0));
+                    s.push(e1(prop, "u32", H_TAG, 0, "look1+mut+ch1+bulk+shape", &fl, 130, 1, 1, prof, 900.0));
+                }
+                bounds = json!({"E1": "Tk: d<=1 at N=130, d<=2 at N=33 (4 hashers, both profiles)", "E2": "fixpoint u=5/4 (Tk), ZST"});
+            }
+        }
+        "C06" => {
+            let a = "mut+ch1+bulk+shape+iterlite/mut1+ch0+iter+clone";
+            if q {
+                for &hk in &[H_GOOD, H_LOW] {
+                    s.push(e1(prop, "tk", hk, 0, a, &[], 20, 2, 1, "chk", 45.0));
+                    s.push(e1(prop, "tk", hk, 0, "mut+ch1+bulk+shape+iter", &[], 64, 1, 1, "chk", 45.0));
+                }
+                s.push(e1(prop, "tk", H_CONST, 0, "mut+ch1+bulk+shape+iter", &[], 40, 1, 1, "chk", 45.0));
+                s.push(e2(prop, "tk", H_GOOD, "mut+ch0+shape2+iterlite", &[], 3, "chk", 45.0));
+                s.push(e2(prop, "tk", H_LOW, "mut+ch0+shape2+iterlite", &[], 3, "chk", 45.0));
+                bounds = json!({"E1": "Tk: d<=2 at N=20, d<=1 at N=64, iterators dropped/forgotten at every prefix (<=40 elements) ", "E2": "fixpoint u=3"});
+            } else {
+                for &hk in &HS4 {
+                    s.push(e1(prop, "tk", hk, 0, a, &[], 40, 2, 1, "chk", 1200.0));
+                    s.push(e1(prop, "tk", hk, 0, "mut+ch1+bulk+shape+iter", &[], 130, 1, 1, "chk", 900.0));
+                }
+                s.push(e2(prop, "tk", H_GOOD, "mut+ch0+shape2+iterlite", &[], 5, "chk", 1200.0));
+                s.push(e2(prop, "tk", H_LOW, "mut+ch0+shape2+iterlite", &[], 4, "chk", 1200.0));
+                s.push(e2(prop, "tk", H_CONST, "mut+ch0+shape2+iterlite", &[], 4, "chk", 1200.0));
+                bounds = json!({"E1": "Tk: d<=2 at N=40, d<=1 at N=130 (4 hashers)", "E2": "fixpoint u=5/4"});
+            }
+        }
+        "C08" => {
+            let a = "mut1+ch0+shape+iter/iter";
+            if q {
+                for &hk in &HS4 {
+                    s.push(e1(prop, "u32", hk, 0, a, &[], 40, 2, 1, "chk", 45.0));
+                }
+                s.push(e1(prop, "u32", H_GOOD, 0, "iter", &[], 130, 1, 0, "chk", 45.0));
+                s.push(e1(prop, "tk", H_GOOD, 0, a, &[], 31, 2, 1, "chk", 45.0));
+                s.push(e2(prop, "u32", H_GOOD, "mut1+ch0+shape2+iter", &[], 3, "chk", 45.0));
+                s.push(e2(prop, "zst", H_GOOD, "mut+bulk2+shape2+iter", &[], 1, "chk", 45.0));
+                bounds = json!({"E1": "iterator checks at every state with <=1 deviation up to N=40 (4 hashers) and on the growth path to N=130; every consumption prefix for <=40 elements", "E2": "fixpoint u=3, ZST"});
+            } else {
+                for &hk in &HS4 {
+                    s.push(e1(prop, "u32", hk, 0, a, &[], 64, 2, 1, "chk", 1200.0));
+                    s.push(e1(prop, "tk", hk, 0, a, &[], 33, 2, 1, "chk", 1200.0));
+                }
+                s.push(e1(prop, "u32", H_GOOD, 0, "iter", &[], 300, 1, 0, "chk", 600.0));
+                s.push(e1(prop, "u32", H_GOOD, 0, "mut1+ch0+shape/mut1+ch0+shape/iter", &[], 31, 3, 1, "chk", 1200.0));
+                s.push(e2(prop, "u32", H_GOOD, "mut1+ch0+shape2+iter", &[], 5, "chk", 1200.0));
+                s.push(e2(prop, "u32", H_CONST, "mut1+ch0+shape2+iter", &[], 4, "chk", 1200.0));
+                s.push(e2(prop, "zst", H_GOOD, "mut+bulk2+shape2+iter", &[], 1, "chk", 100.0));
+                bounds = json!({"E1": "iterator checks at every state with <=1 deviation up to N=64 and <=2 deviations up to N=31", "E2": "fixpoint u=5/4, ZST"});
+            }
+        }
+        "C09" => {
+            let a = "mut1+ch0+shape+pred/pred";
+            if q {
+                for &hk in &HS4 {
+                    s.push(e1(prop, "u32", hk, 0, "mut1+ch0+shape+pred/predlite", &["cursor"], 18, 2, 1, "chk", 45.0));
+                    s.push(e1(prop, "u32", hk, 0, "pred", &["cursor"], 64, 1, 0, "chk", 45.0));
+                }
+                s.push(e1(prop, "u32", H_GOOD, 0, "pred", &["cursor"], 130, 1, 0, "chk", 45.0));
+                s.push(e1(prop, "tk", H_GOOD, 0, "pred", &["cursor"], 64, 1, 0, "chk", 45.0));
+                s.push(e2(prop, "u32", H_GOOD, "mut1+ch0+shape2+pred", &["cursor"], 3, "chk", 45.0));
+                bounds = json!({"E1": "all predicates (incl. 2^k subsets of class representatives) at every point of the growth path to N=64 (4 hashers) / 130, and structural predicates after <=1 deviation up to N=18", "E2": "fixpoint u=3"});
+            } else {
+                for &hk in &HS4 {
+                    s.push(e1(prop, "u32", hk, 0, a, &["cursor"], 48, 2, 1, "chk", 1200.0));
+                    s.push(e1(prop, "tk", hk, 0, a, &["cursor"], 31, 2, 1, "chk", 1200.0));
+                }
+                s.push(e1(prop, "u32", H_GOOD, 0, "pred", &["cursor"], 300, 1, 0, "chk", 600.0));
+                s.push(e2(prop, "u32", H_GOOD, "mut1+ch0+shape2+pred", &["cursor"], 4, "chk", 1200.0));
+                s.push(e2(prop, "tk", H_LOW, "mut1+ch0+shape2+pred", &["cursor"], 3, "chk", 1200.0));
+                bounds = json!({"E1": "all predicates at every state with <=1 deviation up to N=48", "E2": "fixpoint u=4"});
+            }
+        }
+        "C10" => {
+            let fl = ["c10"];
+            if q {
+                for &prof in &["chk", "rel"] {
+                    s.push(e1(prop, "u32", H_GOOD, 0, "mut1+ch0+shape/capall+caphuge+fill", &fl, 33, 2, 1, prof, 45.0));
+                    s.push(e1(prop, "u32", H_GOOD, 0, "capall+caphuge", &fl, 130, 1, 0, prof, 45.0));
+                    s.push(e1(prop, "u32", H_GOOD, 0, "withcap", &fl, 0, 1, 0, prof, 45.0));
+                    s.push(e1(prop, "zst", H_GOOD, 0, "withcap", &fl, 0, 1, 0, prof, 45.0));
+                    s.push(e2(prop, "zst", H_GOOD, "mut+shape2+caphuge", &fl, 1, prof, 45.0));
+                    s.push(e1(prop, "tk", H_LOW, 0, "mut1+ch0+shape/cap+caphuge+fill", &fl, 20, 2, 1, prof, 45.0));
+                }
+                bounds = json!({"E1": "every reserve/try_reserve n in [0,2cap+4], every shrink_to m in [0,cap+2], usize/isize windows, at every state with <=1 deviation up to N=33 and on the growth path to 130; with_capacity(n) for n<=1100 and 2^k+-1 to 2^20", "profiles": "chk and rel"});
+            } else {
+                for &prof in &["chk", "rel"] {
+                    for &hk in &[H_GOOD, H_LOW, H_CONST] {
+                        s.push(e1(prop, "u32", hk, 0, "mut1+ch0+shape/capall+caphuge+fill", &fl, 64, 2, 1, prof, 1200.0));
+                    }
+                    s.push(e1(prop, "u32", H_GOOD, 0, "capall+caphuge", &fl, 600, 1, 0, prof, 900.0));
+                    s.push(e1(prop, "u32", H_GOOD, 0, "cap+caphuge", &fl, 4096, 1, 0, prof, 900.0));
+                    s.push(e1(prop, "u32", H_GOOD, 0, "withcap", &fl, 0, 1, 0, prof, 100.0));
+                    s.push(e1(prop, "zst", H_GOOD, 0, "withcap", &fl, 0, 1, 0, prof, 100.0));
+                    s.push(e1(prop, "tk", H_GOOD, 0, "withcap", &fl, 0, 1, 0, prof, 100.0));
+                    s.push(e2(prop, "zst", H_GOOD, "mut+shape2+caphuge", &fl, 1, prof, 100.0));
+                    s.push(e1(prop, "tk", H_LOW, 0, "mut1+ch0+shape/capall+caphuge+fill", &fl, 33, 2, 1, prof, 1200.0));
+                    s.push(e2(prop, "u32", H_GOOD, "mut1+ch0+shape2+caphuge", &fl, 4, prof, 1200.0));
+                }
+                bounds = json!({"E1": "all capacity arguments at every state with <=1 deviation up to N=64, on the growth path to 600 (all n) and 4096 (boundary menu)", "profiles": "chk and rel"});
+            }
+        }
+        "C12" => {
+            let fl = ["cursor", "c02", "c03"];
+            if q {
+                for &hk in &HS4 {
+                    s.push(e1(prop, "u32", hk, 0, "ch3", &fl, 58, 1, 0, "chk", 45.0));
+                }
+                s.push(e1(prop, "u32", H_GOOD, 0, "mut1+shape/ch2", &fl, 10, 2, 1, "chk", 45.0));
+                s.push(e1(prop, "tk", H_GOOD, 0, "ch3", &fl, 31, 1, 0, "chk", 45.0));
+                s.push(e1(prop, "u32", H_GOOD, 0, "ch2", &fl, 48, 1, 1, "chk", 45.0));
+                s.push(e1(prop, "u32", H_GOOD, 0, "ch1", &fl, 130, 1, 0, "chk", 45.0));
+                s.push(e2(prop, "u32", H_GOOD, "ch2+shape2", &fl, 2, "chk", 45.0));
+                s.push(e2(prop, "zst", H_GOOD, "ch3+shape2", &fl, 1, "chk", 45.0));
+                bounds = json!({"E1": "every entry / raw-entry method chain of length <=3 on every key class at every point of the growth path to N=58 (4 hashers); length <=2 on every concrete key to N=48 and after one shaping deviation to N=10; core chains on every class to N=130", "E2": "fixpoint u=2 with all chains of length <=2; ZST length <=3"});
+            } else {
+                for &hk in &HS4 {
+                    s.push(e1(prop, "u32", hk, 0, "ch3", &fl, 130, 1, 0, "chk", 900.0));
+                    s.push(e1(prop, "u32", hk, 0, "mut1+shape/ch3", &fl, 40, 2, 1, "chk", 1500.0));
+                    s.push(e1(prop, "tk", hk, 0, "ch3", &fl, 64, 1, 0, "chk", 900.0));
+                }
+                s.push(e1(prop, "u32", H_GOOD, 0, "ch3", &fl, 40, 1, 1, "chk", 1500.0));
+                s.push(e1(prop, "u32", H_GOOD, 0, "ch2/ch2", &fl, 24, 2, 0, "chk", 1500.0));
+                s.push(e2(prop, "u32", H_GOOD, "ch2+shape2", &fl, 3, "chk", 1500.0));
+                s.push(e2(prop, "u32", H_LOW, "ch3+shape2", &fl, 2, "chk", 1500.0));
+                s.push(e2(prop, "zst", H_GOOD, "ch3+shape2", &fl, 1, "chk", 300.0));
+                bounds = json!({"E1": "chains of length <=3 on every key class at every point of the growth path to N=130 and after one shaping deviation to N=40; on every concrete key to N=40", "E2": "fixpoint u=3 (length <=2) / u=2 (length <=3); ZST"});
             }
         }
         _ => return None,
